@@ -171,7 +171,13 @@ def run(ctx):
             if dk == 'RANGE':
                 dom = ('range', A.num('0'), A.num(gen.pick(rng, ('1', '3', '10'))), rng.random() < 0.3, rng.random() < 0.3)
             else:
-                dom = ('set', tuple(gen.pick(rng, lits[dk]) for _ in range(rng.randrange(1, 4))))
+                # members: literals, and non-literals whose type is just as definite (operator and function results)
+                derived = {'NUMBER': (('bin', '+', A.num('1'), A.num('2')), A.neg(A.num('1')), ('call', 'abs', (A.num('2'),)),
+                                      ('call', 'len', (('set', (A.num('1'),)),))),
+                           'STRING': (('call', 'str', (A.num('1'),)),),
+                           'BOOL': (A.not_(A.boolean(True)), ('bin', '<', A.num('1'), A.num('2')))}
+                dom = ('set', tuple(gen.pick(rng, derived[dk] if rng.random() < 0.4 else lits[dk])
+                                    for _ in range(rng.randrange(1, 4))))
             v = gen.pick(rng, ('x', 'k', 'qv'))
             elem = 'NUMBER' if dk == 'RANGE' else dk
 
